@@ -711,7 +711,7 @@ def run(ctx):
         if not _same(_plain(back), _plain(v)):
             hook.pending.append(('literal/encoding-does-not-decode-to-value', f'{what} decodes to {back!r:.200}', {}))
 
-    N = ctx.pick(600, 3500)
+    N = ctx.pick(600, 6000)
     for i, rng in ctx.cases(N, 'literal'):
         t = gen_type(rng, hl)
         try:
@@ -786,7 +786,7 @@ def run(ctx):
         ctx.case_index = None
 
     # ---- phase expr -----------------------------------------------------------------------------
-    N = ctx.pick(300, 1800)
+    N = ctx.pick(300, 3000)
     for i, rng in ctx.cases(N, 'expr'):
         g = ExprGen(rng, hl, max_depth=rng.choice([3, 4, 5, 6]), p_share=rng.choice([0.2, 0.35]))
         ok, e = guarded('exprgen', g.program)
@@ -797,7 +797,7 @@ def run(ctx):
             flush(None, ('expr-rejected', i), {})
 
     # ---- phase api ------------------------------------------------------------------------------
-    N = ctx.pick(200, 1200)
+    N = ctx.pick(200, 2000)
     for i, rng in ctx.cases(N, 'api'):
         ops = api_catalogue(hl, rng)
         pool = []
@@ -898,7 +898,7 @@ def run(ctx):
         t = hl.Table.parallelize(rows, schema=st, key=key, globals=gl)
         return t, TModel(gm, dict(st.items()), key or []), 'parallelize'
 
-    N = ctx.pick(120, 700)
+    N = ctx.pick(120, 1200)
     for i, rng in ctx.cases(N, 'table'):
         ok, src = guarded('table_source', lambda: table_source(rng))
         if not ok:
@@ -1128,7 +1128,7 @@ def run(ctx):
 
     import copy
 
-    N = ctx.pick(80, 450)
+    N = ctx.pick(80, 750)
     for i, rng in ctx.cases(N, 'matrix'):
         mt = hl.utils.range_matrix_table(rng.randint(0, 5), rng.randint(0, 4))
         m = MModel({}, {'row_idx': hl.tint32}, {'col_idx': hl.tint32}, {}, ['row_idx'], ['col_idx'])
